@@ -1,1 +1,2 @@
 import PyribsGen.RngSites
+import PyribsGen.Formulas
